@@ -16,8 +16,12 @@ func c07NewValue(maxN int) {
 	in := sym.Bytes("in", n)
 	sym.Bounded(16<<20+64*n, n+8, func() {
 		v, err := NewValue(bytes.NewReader(in))
+		// the same bytes a second time in the same process: same outcome (nothing remembered from the
+		// first attempt may make the second one crash)
+		v2, err2 := NewValue(bytes.NewReader(in))
+		sym.Assert((err == nil) == (err2 == nil), "second-decode-of-the-same-bytes-differs")
 		if err == nil {
-			sym.Assert(v != nil, "nil-value-without-error")
+			sym.Assert(v != nil && v2 != nil, "nil-value-without-error")
 			sym.Reach("decoded")
 		} else {
 			sym.Reach("rejected")
@@ -73,12 +77,16 @@ func C08ValueDeep() { c08Value(4) }
 // annotations with more or fewer names than members, taken from the engine's signature catalogue):
 // the decoder must answer with a value or an error, not a crash.
 func C07SignatureText() {
-	sigs := []string{"()<P,a>", "(i)<P,a,b>", "(ii)<P,a>", "[(i)<P,a,b>]", "(i)<P>", "(s)<P,a>"}
+	// ... and text that is not a signature at all
+	sigs := []string{"()<P,a>", "(i)<P,a,b>", "(ii)<P,a>", "[(i)<P,a,b>]", "(i)<P>", "(s)<P,a>", "(", "zz", "[", "{i}", "(i"}
 	sig := sigs[sym.Choose("sig", len(sigs))]
 	body := sym.Bytes("body", sym.Choose("n", 9))
 	in := append(zzStr(sig), body...)
 	sym.Bounded(16<<20+64*len(in), len(in)+8, func() {
 		_, err := NewValue(bytes.NewReader(in))
+		// a second value of the same signature in the same process: same outcome
+		_, err2 := NewValue(bytes.NewReader(in))
+		sym.Assert((err == nil) == (err2 == nil), "second-decode-of-the-same-bytes-differs")
 		if err == nil {
 			sym.Reach("decoded")
 		} else {
